@@ -25,6 +25,7 @@ class Schema:
         self.edges = set()       # (parent, rel, child)
         self.derived = []
         self.frozen = []
+        self.non_owning = {('Link', 'connects', 'ConnectionPoint')}
 
     def pairs(self):
         out = set()
@@ -38,6 +39,10 @@ class Schema:
 
     def children_of(self, cls):
         return {(r, b) for a, r, b in self.edges if a == cls}
+
+    def owned_children_of(self, cls):
+        """children the element owns (a Link is connected to interfaces but does not own them)"""
+        return {(r, b) for a, r, b in self.edges if a == cls and (a, r, b) not in self.non_owning}
 
     def parents_of(self, cls):
         return {(r, a) for a, r, b in self.edges if b == cls}
